@@ -22,5 +22,5 @@ Extraction "../ocaml/gen/ModelC14.ml"
   pbes2_enc_algor_to_der pbes2_enc_algor_from_der pbes2_params_to_der pbes2_params_from_der
   pbes2_algor_to_der pbes2_algor_from_der p8e_to_der p8e_from_der
   sm2_ct_to_der sm2_ct_from_der sm2_pub_to_der sm2_pub_from_der sm2_pubinfo_to_der sm2_pubinfo_from_der
-  sm2_priv_to_der sm2_priv_from_der sm2_p8_to_der sm2_p8_from_der sm2_p8_open sm2_p8_open_c
+  sm2_priv_to_der sm2_priv_from_der sm2_p8_to_der sm2_p8_from_der sm2_p8_open sm2_p8_open_c sm2_pubkey_from_der sm2_pubkeyinfo_from_der sm2_privkey_from_der sm2_pubkeyinfo_from_pem sm2_privkeyinfo_from_pem
   pem_write pem_read kdf_sm3 cbcdec_sm4 cbcenc_sm4.
